@@ -123,7 +123,8 @@ class Renderer:
         for k, v in doc['pairs']:
             line = k + self.ws() + v if v else k
             if v and self.coin('continuation', 0.25):
-                line = k + ' \\' + L.choice(['', ' ', '\t']) + '\n' + self.ws() + v
+                # (the line break counts as one blank: neither a blank before the backslash nor indentation of the next line is needed)
+                line = k + L.choice([' ', ' ', '']) + '\\' + L.choice(['', ' ', '\t']) + '\n' + L.choice([self.ws(), self.ws(), '']) + v
             if self.coin('trailing_comment', 0.3):
                 line += self.cws() + self.comment(True)
             elif self.coin('trailing_blanks', 0.2):
@@ -206,7 +207,10 @@ class Renderer:
             line = (L.choice([' ', '\t', '  ']) if self.coin('leading_blanks', 0.2) else '') + toks[0]
             for tk in toks[1:]:
                 if self.coin('continuation', 0.12):
-                    line += ' \\' + L.choice(['', ' ']) + '\n' + self.ws() + tk
+                    tight = L.random() < 0.35
+                    line += ('' if tight else ' ') + '\\' + L.choice(['', ' ']) + '\n' + ('' if tight and L.random() < 0.7 else self.ws()) + tk
+                    if tight:
+                        self.used.add('tight_continuation')
                 else:
                     line += self.ws() + tk
             if self.coin('trailing_comment', 0.3):
@@ -240,7 +244,7 @@ class C02(Check):
                    'brace-wrapped strings carry no #, ", } and no edge blanks; pair values carry no #, quotes, edge blanks or {{}}',
                    'char[] columns have at least one non-empty value; a comment never ends with a backslash']
     REQUIRED_COUNTERS = ('same_names_other_types_reads', 'renderings_parsed', 'raw_mode_parses', 'binary_mode_parses', 'crlf_renderings',
-                         'continuation_renderings', 'interleaved_renderings', 'hostile_comment_renderings',
+                         'continuation_renderings', 'continuation_without_blank_or_indentation_renderings', 'interleaved_renderings', 'hostile_comment_renderings',
                          'metamorphic_pairs', 'char_var_columns', 'enum_columns')
 
     def setup(self):
@@ -574,6 +578,7 @@ class C02(Check):
             fr = r['freedoms']
             out.count('crlf_renderings', 'crlf' in fr)
             out.count('continuation_renderings', 'continuation' in fr)
+            out.count('continuation_without_blank_or_indentation_renderings', 'tight_continuation' in fr)
             out.count('interleaved_renderings', 'interleaved_tables' in fr)
             out.count('hostile_comment_renderings', 'hostile_comment' in fr)
             out.count('legacy_bracket_renderings', 'legacy_brackets' in fr)
